@@ -932,11 +932,11 @@ def run_interleaving(case, prefix):
     ids = []
 
     def app():
-        for k in kinds:
+        for i, k in enumerate(kinds):
             ent = PingIqProtocolEntity() if k == "ping" else LastseenIqProtocolEntity("4922@s.whatsapp.net")
-            ids.append((k, ent.getId()))
-            w.app._sendIq(ent, lambda res, req, k=k: calls.append((k, "success", req is not None)),
-                          lambda res, req, k=k: calls.append((k, "error", req is not None)))
+            ids.append((i, k, ent.getId()))
+            w.app._sendIq(ent, lambda res, req, k=k, i=i: calls.append((i, k, "success", req is not None)),
+                          lambda res, req, k=k, i=i: calls.append((i, k, "error", req is not None)))
     error = None
     if ok:
         try:
@@ -960,11 +960,11 @@ def run_interleaving(case, prefix):
         if ent[0] == "thread-exception":
             bad("thread-exception:%s" % ent[2], "exception escaped in thread %s: %s %s" % (ent[1], ent[2], ent[3]))
     want = "success" if reply == "result" else "error"
-    for k, rid in ids:
-        n = sum(1 for c in calls if c[0] == k and c[1] == want)
-        other = sum(1 for c in calls if c[0] == k and c[1] != want)
+    for i, k, rid in ids:
+        n = sum(1 for c in calls if c[0] == i and c[2] == want)
+        other = sum(1 for c in calls if c[0] == i and c[2] != want)
         if n != 1 or other:
-            bad("%s:%s-callback-count" % (k, want), "request %s got %d %s callbacks and %d of the other kind (expected exactly one)" % (k, n, want, other),
+            bad("%s:%s-callback-count" % (k, want), "request #%d (%s) got %d %s callbacks and %d of the other kind (expected exactly one)" % (i, k, n, want, other),
                 {"calls": calls, "registry": list(w.app.iqRegistry)})
     if w.app.iqRegistry:
         bad("registry-leak:App", "application registry still holds %s after every request was answered" % list(w.app.iqRegistry))
